@@ -386,7 +386,7 @@ pub fn run(ctx: &Ctx) -> PropResult {
     let out = run_workloads(ctx, wls);
     let mut meta = PropMeta::default();
     meta.rule = format!(
-        "Dates: range ends, ±10^6 days, ±400 years, 5–7 digit years of both signs, leap days, uniform over all 2^32 days — to_string() vs the documented yyyy/MM/dd, str::parse of the model-written yyyy-MM-dd, serde_json round trip (text and value). Times: every {} second of the day x 3 offsets (0, one that moves the local time across midnight, uniform), and for every offset (quick: whole-minute offsets and every 89th other) the stored times whose local reading is exactly midnight, ±1 ns, ±1 s, and noon — Display, FromStr of HH:mm:ss, serde shows the same HH:mm:ss. DateTimes: Display for all eras/offsets; serde (years 1..=9999, whole-minute offsets) returns the same instant to the second and the same offset. Malformed: delete/insert/replace/truncate mutations (multi-byte, NUL, signs, digits) of well-formed texts through serde_json and FromStr — an error, never a panic. Every case non-trivial; distinct by input hash. One instant (and one time of day) shown under six offsets in a row on one thread; DateTimes at 2^k units from 0001-01-01 / 1970-01-01 with offsets up to ±23:59; Offset::Local under a changing system zone as in C11 (Display).",
+        "Dates: range ends, ±10^6 days, ±400 years, 5–7 digit years of both signs, leap days, uniform over all 2^32 days — to_string() vs the documented yyyy/MM/dd, str::parse of the model-written yyyy-MM-dd, serde_json round trip (text and value). Times: every {} second of the day x 3 offsets (0, one that moves the local time across midnight, uniform), and for every offset (quick: whole-minute offsets and every 89th other) the stored times whose local reading is exactly midnight, ±1 ns, ±1 s, and noon — Display, FromStr of HH:mm:ss, serde shows the same HH:mm:ss. DateTimes: Display for all eras/offsets; serde (years 1..=9999, whole-minute offsets) returns the same instant to the second and the same offset. Malformed: delete/insert/replace/truncate mutations (multi-byte, NUL, signs, digits) of well-formed texts through serde_json and FromStr — an error, never a panic. Every case non-trivial; distinct by input hash. One instant (and one time of day) shown under six offsets in a row on one thread; DateTimes at 2^k units from 0001-01-01 / 1970-01-01 with offsets up to ±23:59; Offset::Local under a changing system zone as in C11 (Display). str::parse::<DateTime>() and serde_json on grammatical RFC 3339 texts (any fraction length, Z, ±hh:mm incl. -00:00) must succeed and agree with parse_rfc3339.",
         if ctx.quick() { "11th" } else { "single" }
     );
     meta.required_bins = vec![
